@@ -11,6 +11,20 @@ EXPLANATION = ("Every function between the leaf handlers and the dispatch is sym
                "through the same decorators and dispatch the code uses; callees are replaced by their derived contracts.")
 
 
+# "followed by one version query (unless that message itself made the version known)": the wrapper's clauses are implications under
+# the guards of the version handler's specified outcomes, and the outcome a version report may have while the version is unknown -
+# it returns normally only if it made the version known - is the clause `outcome-as-specified/normal` of handle_i_version, which
+# carries C04's id.  In this check it is a property clause (seed C06h: a report from another node returns normally, the version
+# stays unknown and the wrapper, which exempts "the answer itself", asks nothing).
+ALSO_PROPERTY = ("C04",)
+
+
+def owns(ob_):
+    if PROP in ob_["name"].split("/")[0].split("+"):
+        return True
+    return ob_["name"].startswith("C04/outcome-as-specified/normal") and "handle_i_version" in ob_.get("unit", "")
+
+
 def build(world):
     return hc.build_for(world, PROP)
 
